@@ -1,6 +1,6 @@
 """C17 - dispatcher splits rewards, bounded fee, keeps nothing (DESIGN 6, C17)."""
 from ..callgraph import explore, message_effects, site_guarded, call_sites
-from ..expr import show, find
+from ..expr import show, find, arith_args
 from .common import CONTRACTS, entry, msg_enum, variant_env, stored, where
 from .msgs import vec_elems, coin_parts, wasm_execute, is_zero_fact
 
@@ -241,10 +241,10 @@ def run(prog, world, sem, rep):
             sub = ai
             if sub.op == "bin" and sub.info == "Mul":
                 sub = world.ident(sub.args[0])
-            if not (sub.op == "call" and sub.info == "cosmwasm_std::Uint128::checked_sub"):
+            if arith_args(sub, "Sub") is None:
                 bad.append("offer amount is not a difference: %s" % show(ai, 4))
                 continue
-            minu, subt = world.ident(sub.args[0]), world.ident(sub.args[1])
+            minu, subt = world.ident(arith_args(sub, "Sub")[0]), world.ident(arith_args(sub, "Sub")[1])
             pairs += 1
             if minu == x_avail and subt == share_id:
                 if not (dlab == stsei_d and ask == bsei_d):
